@@ -68,7 +68,8 @@ def execute(case):
     classes = set()
     h = None
     try:
-        for sp in case["sockets"]:
+        cfgmode = bool(case["history"].get("config"))
+        for sp in ([] if cfgmode else case["sockets"]):
             if sp["kind"] == 'unix':
                 s = CircusSocket(name=sp["name"],
                                  path=os.path.join(tmp, sp["name"] + '.sock'),
@@ -78,13 +79,26 @@ def execute(case):
                                  so_reuseport=bool(sp.get("reuseport")))
             socks.append(s)
         hc = dict(case["history"])
-        hc["arbiter"] = dict(hc.get("arbiter") or {}, sockets=list(socks))
-        wcfg = dict((wc["name"], wc) for wc in hc["watchers"])
+        if cfgmode:
+            # the daemon is started from an ini file with [socket:...]
+            # sections and may be told to re-read it
+            hc["socket_sections"] = [dict(sp) for sp in case["sockets"]]
+            classes.add('config-file-history')
+        else:
+            hc["arbiter"] = dict(hc.get("arbiter") or {},
+                                 sockets=list(socks))
+        wcfg = dict((wc["name"], dict(wc)) for wc in hc["watchers"])
         hc["watchers"] = [dict((kk, vv) for kk, vv in wc.items()
                                if kk != "_refs") for wc in hc["watchers"]]
+        if cfgmode:
+            for wc in hc["watchers"]:
+                if isinstance(wc.get("args"), list):
+                    wc["args"] = ' '.join(wc["args"])
         h = History(hc)
         w = h.world
         k = w.kernel
+        if cfgmode:
+            socks = [w.arbiter.sockets[sp["name"]] for sp in case["sockets"]]
         names = [sp["name"] for sp in case["sockets"]]
         by_name = dict((s.name, s) for s in socks)
 
@@ -173,6 +187,9 @@ def execute(case):
             checked[0] = len(k.spawn_log)
 
         def on_op(h_, i, op):
+            if op[0] == 'cfg' and "set" in op[1] and op[1]["set"][1] == 'cmd':
+                # the edited command line no longer refers to the sockets
+                wcfg.get(op[1]["set"][0], {})["_refs"] = []
             check_spawns()
             if not viols:
                 check_sockets('after op %d %r' % (i, op[:2]))
@@ -223,7 +240,7 @@ def _strategy():
     from hypothesis import strategies as st
     base = lifecycle_cases(
         requests=('incr', 'decr', 'restart', 'reload', 'stop', 'start'),
-        max_watchers=3, max_ops=24)
+        max_watchers=3, max_ops=24, config=True)
 
     @st.composite
     def case(draw):
@@ -234,8 +251,13 @@ def _strategy():
             sp = {"name": ['web', 'api', 'ctl'][i], "kind": kind}
             if kind == 'inet' and draw(st.integers(0, 4)) == 0:
                 sp["reuseport"] = True
+            if kind == 'inet' and draw(st.integers(0, 2)) == 0:
+                sp["proto"] = 'tcp'
             socks.append(sp)
         hist = draw(base)
+        if hist.get("config"):
+            for sp in socks:
+                sp.pop("reuseport", None)
         for wc in hist["watchers"]:
             if wc["numprocesses"] == 0:
                 wc["numprocesses"] = 1
